@@ -6,7 +6,7 @@ run of the same runner on the same inputs."""
 from .. import crop
 
 CLAIMS_PREFIX = ("reap_value", "reap_raise", "direct", "store", "last_result", "batches", "outcome_sow", "outcome_grow",
-                 "outcome_reload", "outcome_resow")
+                 "outcome_reload", "outcome_resow", "outcome_fix_fn", "outcome_change_const", "obs_grow", "obs_sow")
 
 
 def configs(tier):
@@ -39,6 +39,29 @@ def configs(tier):
     return out
 
 
+def campaign_configs():
+    mk = crop.mk
+    out = []
+    for farmer in ("runner", "sampler"):
+        for bmode, bval in (("none", 1), ("count", 2)):
+            if farmer == "sampler":
+                out.append(mk([], nca=1, cases=[[2], [1], [3]], kind="samples", bmode=bmode, bval=bval, farmer=farmer))
+            else:
+                out.append(mk([3], kind="combos", bmode=bmode, bval=bval, farmer=farmer))
+                out.append(mk([2], nca=1, cases=[[1], [3]], kind="combos", bmode=bmode, bval=bval, farmer=farmer, shufSow=1))
+    return out
+
+
+def fixfn_configs():
+    mk = crop.mk
+    out = []
+    for farmer in ("runner", "harvester"):
+        for failing in ([2], [1, 3]):
+            out.append(mk([3], kind="combos", bmode="count", bval=2, farmer=farmer, failing=failing))
+            out.append(mk([2, 2], kind="combos", bmode="size", bval=3, farmer=farmer, failing=failing))
+    return out
+
+
 def variants(case, idx):
     v = crop.default_variants(case, idx)
     if case["cfg"]["farmer"] in ("runner", "harvester"):
@@ -61,6 +84,12 @@ def run(rep):
              need=["DoSow", "DoGrowMissing", "ReapDefault"], sample=1200 if q else 10000),
         dict(name="C06_hist", configs=cfgs[::3], acts=["grow", "grow_set", "grow_missing", "reload", "resow", "reap_default", "reap_partial"],
              max_steps=6, mode="sim", num=500 if q else 6000, check=False),
+        # a second campaign on the same Crop object after the farmer's constants were changed; and a corrected function
+        # that reaches the workers through a re-sow
+        dict(name="C06_campaigns", configs=campaign_configs(), acts=["grow_missing", "reap_default", "campaign2", "reload"],
+             max_steps=6, mode="sim", num=300 if q else 3000, need=["DoChangeConst"]),
+        dict(name="C06_fixfn", configs=fixfn_configs(), acts=["grow", "grow_missing", "fix_fn", "resow", "reload", "reap_default"],
+             max_steps=7, mode="sim", num=300 if q else 3000, need=["DoFixFn", "DoReSow"]),
     ]
     crop.drive(rep, runs, claims=lambda tag: tag.startswith(CLAIMS_PREFIX), variants=variants)
 
